@@ -1414,7 +1414,15 @@ func (p PoseidonHasher) Hash(inpBI []*big.Int) (*big.Int, error) {
 
 // HashBytes returns poseidon hash on bytes
 func (p PoseidonHasher) HashBytes(msg []byte) (*big.Int, error) {
-	return poseidon.HashBytes(msg)
+	h, err := poseidon.HashBytes(msg)
+	if err != nil {
+		return nil, err
+	}
+	if h == nil {
+		// poseidon.HashBytes returns (nil, nil) for an empty message
+		return nil, errors.New("can't hash empty message")
+	}
+	return h, nil
 }
 
 // Prime returns Q constant
